@@ -25,6 +25,9 @@ type c15Input struct {
 	// Dir: the bytes are also put into a directory (with a second, well-formed file) and parsed through
 	// Decorator.ParseDir, without and with the syntax-only identifier resolver; the packages are printed
 	Dir bool `json:"dir,omitempty"`
+	// Reuse: the tree is also printed by a Restorer that has printed another file before, and by a
+	// Restorer whose Fset is the (populated) FileSet of the decorator
+	Reuse bool `json:"reuse,omitempty"`
 }
 
 var c15Scratch string // set by c15Prop: a directory under /verif/.build
@@ -78,6 +81,35 @@ func c15Check(in c15Input) (key, what string) {
 	}); pm != "" {
 		return "c15-managed-panic", "NewRestorerWithImports(guess).Fprint panicked on a tree Parse returned: " + pm
 	}
+	// printing through a restorer whose FileSet is not empty (the synthetic file does not start at
+	// base 1): one Restorer that prints several files one after another (as Package.Save does for the
+	// files of a package), here a well-formed partner file and then the tree Parse returned ...
+	if in.Reuse {
+		if pm := safely(func() {
+			r := decorator.NewRestorer()
+			var buf bytes.Buffer
+			if p, e := decorator.Parse(c15Partner); e == nil {
+				r.Fprint(&buf, p)
+			}
+			r.Fprint(&buf, f)
+		}); pm != "" {
+			return "c15-reuse-panic", "a Restorer that had printed a file before panicked in Fprint on a tree Parse returned: " + pm
+		}
+		// ... and a Restorer whose Fset is set to a pre-existing FileSet (Restorer.Fset: "Set this to use a
+		// pre-existing FileSet"): the decorator's own, which holds the parsed file
+		if pm := safely(func() {
+			fset := token.NewFileSet()
+			g, _ := decorator.NewDecorator(fset).Parse(in.Src)
+			if g != nil {
+				r := decorator.NewRestorer()
+				r.Fset = fset
+				var buf bytes.Buffer
+				r.Fprint(&buf, g)
+			}
+		}); pm != "" {
+			return "c15-fileset-panic", "a Restorer with Fset set to the decorator's (populated) FileSet panicked in Fprint on a tree that decorator returned: " + pm
+		}
+	}
 	if in.Dir && c15Scratch != "" {
 		dir, e := os.MkdirTemp(c15Scratch, "c15-")
 		if e != nil {
@@ -113,6 +145,9 @@ func c15Check(in c15Input) (key, what string) {
 	}
 	return "", ""
 }
+
+// a well-formed file with general comments that span lines, raw strings and line comments
+const c15Partner = "/*\nPackage a: partner file.\n\nSecond paragraph.\n*/\npackage a\n\nimport \"fmt\" // fmt\n\n/* partner\n   prints */\nfunc partner() {\n\tfmt.Println(`raw\nstring`) /* after\n\tthe call */\n}\n"
 
 func c15Corrupt(c *Ctx, src string, kind string) string {
 	b := []byte(src)
@@ -161,16 +196,19 @@ var c15Fixed = []string{
 	// an import declaration after another declaration is kept by the parser (with an error): a broken path literal there
 	"package p\n\nvar x = 1\n\nimport fmt\n\nfunc f() { fmt.P() }\n", "package p\n\nfunc g() {}\n\nimport 5\n", "package p\n\ntype T int\n\nimport \"a\\qb\"\n\nvar y = 2\n",
 	"package p\n\nimport \"os\"\n\nvar x = os.Args\n\nimport (\n\t\"fmt\n)\n",
+	// general comments that span lines (also with an empty line inside, also unterminated at the end of a broken file)
+	"package a\n\n/* a\n b */\nfunc f() {}\n", "/*\nDoc.\n\nMore.\n*/\npackage a\n\n/*\n#include <x.h>\n\nint f(void);\n*/\nimport \"C\"\n\nfunc f() { /* in\n\n\tside */ g( /* arg\n*/ 1) } /* tail\n */\n",
+	"package a\n\nfunc f() {\n\tx() /* trailing\n\tand more */\n}\n\n/* unterminated\n\nat the end", "package a\n\nvar x = []int{ /* one\ntwo */ 1, /* three\n\nfour */\n}\n",
 	"\xef\xbb\xbfpackage a\n", "package a\r\n\r\nfunc f() {}\r\n", "package a\n\nfunc f() { goto }\n", "package a\n\nvar = \n", "package a\n\ntype T struct { x }}}}\n",
 }
 
 func c15Prop(c *Ctx) {
-	c.Res.Rule = "fixed list of degenerate inputs (empty, no package clause, unterminated comment/string, hanging-indent comment shapes) + hand corpus and $GOROOT/src sample in valid layouts (as is, CRLF, mangled with comments at random indents, dense comments) + their corruptions (truncate, delete bytes, flip bytes to punctuation, insert fragments, swap lines); non-trivial = distinct input"
+	c.Res.Rule = "fixed list of degenerate inputs (empty, no package clause, unterminated comment/string, hanging-indent comment shapes) + hand corpus and $GOROOT/src sample in valid layouts (as is, CRLF, mangled with comments at random indents, dense comments) + their corruptions (truncate, delete bytes, flip bytes to punctuation, insert fragments, swap lines); every tree printed by fresh restorers, and (fixed, valid and every fourth other input) by a Restorer that has printed another file before and by a Restorer whose Fset is the decorator's populated FileSet; non-trivial = distinct input"
 	c15Scratch = filepath.Join(c.Verif, ".build")
 	nrun := 0
 	run := func(src, kind string) {
 		nrun++
-		in := c15Input{Src: src, Kind: kind, Dir: kind == "fixed" || nrun%6 == 0}
+		in := c15Input{Src: src, Kind: kind, Dir: kind == "fixed" || nrun%6 == 0, Reuse: kind == "fixed" || strings.HasPrefix(kind, "valid-") || nrun%4 == 1}
 		c.Res.Evaluations++
 		c.Res.seen(fmt.Sprint(len(src), kind, src[:min(60, len(src))]))
 		c.Res.hist("c15-kind", kind)
